@@ -1,30 +1,65 @@
-import Mastverif.Lemmas.WF
+import Mastverif.Lemmas.History
 /-!
-# C09 — Merkle-search-tree shape of persisted versions (property theorems, in progress)
+# C09 — Merkle-search-tree shape of every persisted version (property theorems)
 
-`WF layer d t` (Lemmas/WF.lean) is the shape of the property: no node below level 0 (a child
-needs `d = d'+1`), level-0 nodes childless, keys of level d have layer ≥ d and the keys below a
-child have layer < d (so exactly d below the top), n+1 child slots by construction of rows,
-no entry-less node except pass-through.  Proved so far: it is preserved by `split`
-(`C09_split_shape`), established by the fresh chain Insert creates under an absent link
-(`C09_fresh_chain_shape`), and independent of residency (`C09_shape_ignores_residency`).
-Preservation by the complete insert / delete / grow / shrink and the history theorem are on
-the work list; the tie (family `persist`) decodes every stored node and evaluates the
-invariants on the implementation after every MakeRoot.
+`WF layer d t` (Lemmas/WF.lean) is the shape of the property: a child exists only one level
+down (no node below level 0, level-0 nodes childless), the keys of a node at level d have
+layer ≥ d while every key below one of its child links has layer < d (so exactly d below the
+top; the top node also holds the higher layers), a node is a row of n entries and n+1 child
+slots by construction, and a child link never leads to an entry-less childless node (only
+pass-through nodes are entry-less).  With `Sorted` (strictly ascending in-order traversal:
+every key below a child lies strictly between the neighbouring keys) and `size = number of
+entries` this is `Tree.Inv`.
+`C09_shape_every_history`: the invariant holds after EVERY history of inserts, updates, deletes
+and persists from the empty tree, for every layer function (adversarial user `Key` types
+included) and every branch factor ≥ 2; `C09_persisted_shape`: flushing changes nothing about
+it.  Tie: family `persist` decodes every stored node with the harness's own decoders and
+evaluates the same invariants on the implementation, and compares the decoded graph with the
+model's tree.
 -/
-namespace Mast.T
+namespace Mast.Tree
+open T
 
-theorem C09_split_shape (layer : Nat → Nat) (t : T) (d x : Nat) (h : WF layer d t) :
+variable (layer : Nat → Nat)
+
+theorem C09_shape_every_history (e : Enc) (bf : Nat) (hbf : 2 ≤ bf) (ops : List Op) :
+    let m := execT layer e (Tree.empty bf) ops
+    WF layer m.height m.root ∧ Sorted m.toList ∧ m.size = m.toList.length := by
+  have := inv_execT layer e ops (Tree.empty bf) (inv_empty layer bf hbf)
+  exact ⟨this.wf, this.sorted, this.size⟩
+
+theorem C09_shape_preserved (e : Enc) (m : Tree) (op : Op) (hi : Inv layer m) :
+    Inv layer (stepT layer e m op).1 := (step_refines layer e m op hi).2.1
+
+theorem C09_persisted_shape (e : Enc) (m : Tree) (hi : Inv layer m) :
+    let p := (makeRoot e m).2.2
+    WF layer p.height p.root ∧ Sorted p.toList ∧ p.size = p.toList.length ∧
+    (makeRoot e m).2.1.size = p.size ∧ (makeRoot e m).2.1.height = p.height := by
+  have h := (inv_makeRoot layer e m hi).1
+  refine ⟨h.wf, h.sorted, h.size, ?_, ?_⟩
+  · unfold makeRoot
+    split
+    · rfl
+    · split <;> rfl
+  · unfold makeRoot
+    split
+    · rfl
+    · split <;> rfl
+
+theorem C09_split_shape (t : T) (d x : Nat) (h : WF layer d t) :
     WF layer d (split t x).1 ∧ WF layer d (split t x).2 := split_WF layer t d x h
 
-theorem C09_fresh_chain_shape (layer : Nat → Nat) (k v s tgt : Nat) (h1 : tgt ≤ layer k)
-    (h2 : layer k ≤ tgt ∨ s = 0) : WF layer (tgt + s) (freshPath s k v) :=
-  freshPath_WF layer k v s tgt h1 h2
-
-theorem C09_shape_ignores_residency (layer : Nat → Nat) (t : T) (d : Nat) :
+theorem C09_shape_ignores_residency (t : T) (d : Nat) :
     WF layer d (erase t) ↔ WF layer d t := WF_erase layer t d
 
-end Mast.T
-#print axioms Mast.T.C09_split_shape
-#print axioms Mast.T.C09_fresh_chain_shape
-#print axioms Mast.T.C09_shape_ignores_residency
+/-- non-vacuity: a three-level tree with a pass-through node, layers = k % 4 -/
+example : WF (fun k => k % 4) 2
+    (cons false (last false (cons false nil 4 0 (last false nil))) 6 0 (last false nil)) := by
+  simp [WF, isEmptyRow, T.toList]
+
+end Mast.Tree
+#print axioms Mast.Tree.C09_shape_every_history
+#print axioms Mast.Tree.C09_shape_preserved
+#print axioms Mast.Tree.C09_persisted_shape
+#print axioms Mast.Tree.C09_split_shape
+#print axioms Mast.Tree.C09_shape_ignores_residency
